@@ -1274,7 +1274,13 @@ struct Ctx
          std::string key = "C15:resetSettings:" + x.param + ":-:" + (x.kind == "value" || x.kind == "seed" ? "not-reset" : x.kind == "lp" ? "lp-changed" : x.kind);
          if(keys.insert(key).second) viol(key, "after resetSettings: " + x.detail);
       }
-      if(!d.empty()) heal();
+      if(d.size() == 1 && d[0].kind == "seed")
+      {
+         sp->setRandomSeed(m.seed);        // only the seed is out of step: re-synchronise without rebuilding the object
+         sink().count("heal.seed_only");
+         hist.push_back("<setRandomSeed(0) to re-synchronise with the model>");
+      }
+      else if(!d.empty()) heal();
    }
    // ---- setSettings
    void makeDonor()
